@@ -25,6 +25,10 @@ CLAIMED = {
             "Static, every cut offset and fault kind at once for the clauses that are code shape: the reader has no Ok exit; in read_response_frame the header is a propagated read_exact, a zero-byte read leads to an error exit and cannot re-enter the loop, and Ok is reachable only when the declared length was filled; on the Err outcome of try_join! every path to the router's exit collects the handler map, sends Err to each of its handlers and notifies the pool; both awaits of send_request map a dropped channel end to BrokenConnectionError and nothing unwraps; wrong header version/direction and keepalive timeouts are error exits; a kept connection is always watched and its removal republishes the list. Promptness and TCP behaviour are not decided.",
             "Trusts rustc MIR; anchors are roles (read_buf loop, try_join result, oneshot sends) and fail closed when rewritten.",
             "DESIGN.md §3 C10"),
+    "C15": ("who-writes census on the tablet list, normalised comparison extraction from the predicate closures (sibling agreement lookup vs. insert), cut/dominance rules on add_tablet, dataflow guard on payload validation",
+            "Static, history-independent necessary conditions: tablet_list is mutated only by add_tablet - through exactly one drain then one insert on every path - and by maintenance; range bounds are immutable; the two overlap bounds of insert are the very predicates the lookup uses (t.last < x / t.first <= x instantiated at new.first / new.last) and drain(left..right) precedes insert(left); a payload is accepted only where last > first; per-DC replica lists are filled from the full list; unresolvable tablets are dropped and the unknown-replica flags can only be raised by add_tablet. The invariant over histories as such is not enumerated.",
+            "Trusts rustc MIR; the rule compares siblings inside the crate rather than a frozen table.",
+            "DESIGN.md §3 C15"),
     "C17": ("MIR abstract-state dataflow over ColumnType/NativeType/CollectionType discriminants: may-return-Ok shape sets of every serialize/type_check impl vs. a reference matrix; dominance/cut rules on add_value and TypedRowIterator::new",
             "Static, whole matrix at once: for each of the ~55 SerializeValue and ~60 DeserializeValue impls of scylla-cql-core the exact set of column-type shapes under which serialize / type_check can return Ok is extracted (through helper gates, delegations and `?`), compared cell by cell with the documented matrix and between the two directions; no CellWriter call is reachable under a rejected shape; add_value's error edge restores the pre-serialisation length and element_count moves only on the Ok edge; TypedRowIterator is only built after R::type_check succeeded. Value-dependent checks inside dynamic CqlValue serialisation (e.g. UDT field-name accounting) are not decided.",
             "Trusts rustc MIR; reference matrix transcribed from docs/source/data-types; third-party impls out of scope.",
